@@ -170,5 +170,8 @@ func zzDispatch(name string, args []string) {
 	switch name {
 	case "zzC02Wiring":
 		zzC02Wiring(args[0])
+	case "zzC02Stream":
+		atoi := func(s string) int { v, _ := strconv.Atoi(s); return v }
+		zzC02Stream(atoi(args[0]), args[1], args[2], args[3], args[4], atoi(args[5]))
 	}
 }
